@@ -161,6 +161,13 @@ def step (st : DState) (line : String) : DState × String :=
     let hh := h.toNat!
     let (s, root) := Bds.treeHashSetup BdsLabel.ops hh
     ({ st with lbl := some (hh, 0, s) }, s!"ok root={BdsLabel.lblStr root} {BdsLabel.showSt s}")
+  | ["bds.states", h, len, m] =>   -- states after key generation and after each of m segments of len steps (Lean source)
+    let hh := h.toNat!
+    let (s0, _) := Bds.treeHashSetup BdsLabel.ops hh
+    let r := (List.range m.toNat!).foldl (fun (acc : List String × Bds.St BdsLabel.Lbl) c =>
+      let s' := Bds.fastForward BdsLabel.ops hh len.toNat! (len.toNat! * c) acc.2
+      (BdsLabel.stSrc s' :: acc.1, s')) ([BdsLabel.stSrc s0], s0)
+    (st, "\n".intercalate r.1.reverse)
   | ["bds.step"] =>
     match st.lbl with
     | none => (st, "bad-op")
